@@ -264,7 +264,7 @@ func mysqlOps(r *core.Run) {
 				continue
 			}
 		}
-		line := fmt.Sprintf("C04.mystmt %s %s %s %s", sch.Token(), kv.Tokens(), st.Token(), core.Hex(rd.Bytes(700)))
+		line := fmt.Sprintf("C04.mystmt %s %s %s %s", sch.Token(), kv.Tokens(), st.Token(), core.Hex(rd.Bytes(2048)))
 		r.Begin("my|"+sch.Token()+"|"+st.Token(), covered, "case:mysql-query-encryptor")
 		out := r.Do(line)
 		// ORACLE: no protected literal survives in the forwarded statement
